@@ -173,6 +173,8 @@ inductive Op (R : Type) where
   | clock (t : Nat)
   | entry (id : String) (inbound : Bool) (batch : Nat)
   | exit (id : String)
+  | exitErr (id : String)               -- `Exit(WithError(e))`
+  | sysMem (x : Int)                    -- `SetSystemMemoryUsage`: not an input of any system rule
 
 /-- `AddCount` / `UpdateConcurrency` on the inbound node at the current time -/
 def record {R} (s : St R) (x : Bucket) : St R :=
@@ -220,6 +222,11 @@ def onExit (s : St R) (e : Entry) : St R :=
     { s with conc := s.conc - 1 }
   else s
 
+/-- `OnCompleted` of an entry that ended with an error: `MetricEventError += batch` first (not an input of the
+    predicate), then as `onExit` -/
+def onExitErr (s : St R) (e : Entry) : St R :=
+  onExit (if e.inbound then record s (evBucket .error e.batch) else s) e
+
 /-- one op -/
 def step (A : Arith R) (spec : Bool) (s : St R) : Op R → St R × Res
   | .load rs => ({ s with rules := loadRules A rs }, .none)
@@ -235,11 +242,17 @@ def step (A : Arith R) (spec : Bool) (s : St R) : Op R → St R × Res
       if !s.started || s.live.any (·.id == id) then (s, .bad)
       else if blockedBy A spec s inbound then (onBlocked s batch, .blockSys)
       else (onPassed s { id := id, inbound := inbound, start := s.now, batch := batch }, .pass)
+  | .sysMem _ => (s, .none)
   | .exit id =>
       if !s.started then (s, .bad) else
       match s.live.find? (·.id == id) with
       | none => (s, .none)
       | some e => (onExit s e, .none)
+  | .exitErr id =>
+      if !s.started then (s, .bad) else
+      match s.live.find? (·.id == id) with
+      | none => (s, .none)
+      | some e => (onExitErr s e, .none)
 
 def run (A : Arith R) (spec : Bool) (s : St R) : List (Op R) → St R × List Res
   | [] => (s, [])
